@@ -19,9 +19,9 @@ use crate::{vensure, vfail};
 use arbitrary::Unstructured;
 use std::collections::BTreeMap;
 
-mod lib_io;
-mod model;
-mod wirepack;
+pub mod lib_io;
+pub mod model;
+pub mod wirepack;
 
 use lib_io::*;
 use model::*;
